@@ -302,10 +302,21 @@ class Program:
                 tree = ast.parse(src, filename=p)
             except SyntaxError as e:  # pragma: no cover
                 raise AnalysisError(f"cannot parse {rel}: {e}")
-            tree = _Canon().visit(tree)
             m = Module(modname, p, rel, tree, src, is_pkg)
             self.modules[modname] = m
         self.digest = h.hexdigest()
+        # normalisation of the parsed package, before anything is indexed: private helpers the rules do not name are
+        # inlined into their callers (engine/inline.py), then canonical statement forms (_Canon)
+        from .inline import inline_package, known_names
+
+        rules_dir = os.path.join(os.path.dirname(os.path.dirname(os.path.abspath(__file__))), "rules")
+        spec_dir = os.path.join(os.path.dirname(rules_dir), "spec")
+        keep = known_names([os.path.join(d, f) for d in (rules_dir, spec_dir) if os.path.isdir(d) for f in sorted(os.listdir(d)) if f.endswith(".py")])
+        self.inline_stats = {"inlined_calls": 0, "helpers_removed": [], "helpers_inlined": []}
+        if os.environ.get("VERIF_SA_NO_INLINE") != "1":
+            self.inline_stats = inline_package({mn: m.tree for mn, m in self.modules.items() if not mn.startswith(PKG + ".testing") and mn != PKG + ".testing"}, keep)
+        for m in self.modules.values():
+            m.tree = _Canon().visit(m.tree)
         for m in self.modules.values():
             self._index_module(m)
         for c in self.classes.values():
